@@ -192,7 +192,7 @@ def ref_node(node, vals, l):
             return bool(vals[node[2]] == vals[node[3]])
     if kind == 'await':
         return None
-    if kind == 'barrier':
+    if kind in ('barrier', 'boom'):
         return None
     if kind == 'multi':
         return _ref_multi(node, vals, l)
@@ -322,7 +322,7 @@ def value_strategy(l, small=False):
 
 
 @st.composite
-def int_program(draw, m, l, max_nodes=10, heavy=True, awaits=False, min_nodes=2, rnd=False):
+def int_program(draw, m, l, max_nodes=10, heavy=True, awaits=False, min_nodes=2, rnd=False, boom=False):
     """Draw a valid secure-integer program for m parties and bit length l."""
     nodes = []
     vals = []
@@ -348,6 +348,8 @@ def int_program(draw, m, l, max_nodes=10, heavy=True, awaits=False, min_nodes=2,
         kinds += ['heavy']
     if rnd:
         kinds += ['rnd', 'rnd']
+    if boom:
+        kinds += ['boom']
     for _ in range(n_ops):
         for _attempt in range(4):
             kind = draw(st.sampled_from(kinds))
@@ -426,6 +428,8 @@ def int_program(draw, m, l, max_nodes=10, heavy=True, awaits=False, min_nodes=2,
                 else:
                     nd = ['rnd', 'random', draw(st.one_of(st.none(), st.integers(1, 1 << (l - 1)),
                                                           st.sampled_from([1, 2, 3, 1 << (l - 1)])))]
+            elif kind == 'boom':
+                nd = ['boom', draw(ref)]
             elif kind == 'coro':
                 nd = ['coro', draw(ref), draw(ref)]
             else:  # multi
@@ -516,6 +520,12 @@ def make_party_program(nodes, l, receivers=None, on_value=None, collect_shares=F
             c = await mpc.gather(c)   # await inside a user-defined MPyC coroutine
             return c + a
 
+        @mpc.coroutine
+        async def failing(a):
+            await mpc.returnType(None)
+            await mpc.gather(a)
+            raise ValueError('failure inside a user-defined MPyC coroutine')
+
         for nd in nodes:
             k = nd[0]
             if k == 'in':
@@ -582,6 +592,9 @@ def make_party_program(nodes, l, receivers=None, on_value=None, collect_shares=F
                 v = None
             elif k == 'barrier':
                 await mpc.barrier()
+                v = None
+            elif k == 'boom':
+                failing(vals[nd[1]])   # a user coroutine without return value that raises after an await
                 v = None
             elif k == 'multi':
                 v = _secure_multi(mpc, nd, vals)
